@@ -6,11 +6,19 @@ open Model
 
 let sm x = if Zar.sign x < 0 then (Negative, Zar.neg x) else (Positive, x)
 let usz s = Zar.of_string_base 16 s
-let w64 = Zar.of_int 64
 
-let words_of x = Zar.of_int ((Zar.numbits x + 63) / 64)
+(* word size of the build that answered: every answer carries a token W40 / W20 (hex); NATIVE marks per-build answers *)
+let wbits = ref 64
+let split_answer got =
+  wbits := 64;
+  List.filter (fun t ->
+    if t = "NATIVE" then false
+    else if String.length t >= 2 && t.[0] = 'W' && (match int_of_string_opt ("0x" ^ String.sub t 1 (String.length t - 1)) with Some _ -> true | None -> false)
+    then (wbits := int_of_string ("0x" ^ String.sub t 1 (String.length t - 1)); false)
+    else true) got
+
 let cls_of x =
-  let n = (Zar.numbits x + 63) / 64 in
+  let n = (Zar.numbits x + !wbits - 1) / !wbits in
   if n <= 1 then "w1" else if n = 2 then "w2" else if n <= 24 then "s" else if n <= 192 then "k" else "t"
 
 let res_str = function
@@ -27,67 +35,87 @@ module Ringasis = struct
   let zn v = nat_of_int (Zar.to_int v)
   let ts = zn mul_threshold_simple and tk = zn mul_threshold_karatsuba
   let chunk = zn mul_simple_chunk_len and sq = zn sqr_max_len_simple
-  let words n v = to_words w64 (nat_of_int n) v
+  let wz () = Zar.of_int !wbits
+  let words n v = to_words (wz ()) (nat_of_int n) v
   (* the word-level stack (Int/RingMulW.v): dispatch + Toom-3 with div_by_word / shr_in_place at word level;
      num-modular's 2-by-1 division is instantiated by exact division as in the C02 oracle *)
   let d21 = x2by1
   (* work bound for running the word-level model inside the oracle (lists of words, unary lengths) *)
   let small la lb = la * lb <= 1200000 && la + lb <= 9000
   let small_pow la lb = la * lb <= 250000 && la + lb <= 6000
-  let typed v = typed_of_value w64 v
-  let nwords v = (Zar.numbits v + 63) / 64
+  let typed v = typed_of_value (wz ()) v
+  let nwords v = (Zar.numbits v + !wbits - 1) / !wbits
   let own_of = function "vv" | "av" -> OVV | "vr" | "ar" -> OVR | "rv" -> ORV | _ -> ORR
   let uval = function
-    | Ok r -> Ok (repr_value w64 r) | Panic p -> Panic p | Err e -> Err e | OutOfFuel -> OutOfFuel
+    | Ok r -> Ok (repr_value (wz ()) r) | Panic p -> Panic p | Err e -> Err e | OutOfFuel -> OutOfFuel
   let sval = function
-    | Ok r -> Ok (srepr_value w64 r) | Panic p -> Panic p | Err e -> Err e | OutOfFuel -> OutOfFuel
+    | Ok r -> Ok (srepr_value (wz ()) r) | Panic p -> Panic p | Err e -> Err e | OutOfFuel -> OutOfFuel
   let ubig_op (op : string) (form : string) (x : Zar.t) (y : Zar.t) : Zar.t result option =
     let o = own_of form in
     match op with
-    | "uadd" -> Some (Ok (repr_value w64 (repr_add w64 o (typed x) (typed y))))
-    | "usub" -> Some (uval (repr_sub w64 o (typed x) (typed y)))
-    | _ -> if small (nwords x) (nwords y) then Some (uval (repr_mul_w w64 d21 ts tk chunk sq (typed x) (typed y))) else None
+    | "uadd" -> Some (Ok (repr_value (wz ()) (repr_add (wz ()) o (typed x) (typed y))))
+    | "usub" -> Some (uval (repr_sub (wz ()) o (typed x) (typed y)))
+    | _ ->
+        (* round 4: Small x Large arms with the word-level shl_in_place of C09, square shortcut by cmp_in_place (Int/RingOpsW4.v);
+           the round-3 model (by-value shift, list equality) must say the same *)
+        if small (nwords x) (nwords y) then begin
+          let r4 = uval (repr_mul_w4 (wz ()) d21 ts tk chunk sq (typed x) (typed y)) in
+          let r3 = uval (repr_mul_w (wz ()) d21 ts tk chunk sq (typed x) (typed y)) in
+          if r3 = r4 then Some r4 else Some (Err Zar.zero)
+        end else None
   let ibig_op (k : string) (form : string) s0 m0 s1 m1 : Zar.t result option =
     let o = own_of form in
     match k with
-    | "add" -> Some (sval (ibig_add_asis w64 o s0 (typed m0) s1 (typed m1)))
-    | "sub" -> Some (sval (ibig_sub_asis w64 o s0 (typed m0) s1 (typed m1)))
-    | _ -> if small (nwords m0) (nwords m1) then Some (sval (ibig_mul_asis_w w64 d21 ts tk chunk sq s0 (typed m0) s1 (typed m1))) else None
+    | "add" -> Some (sval (ibig_add_asis (wz ()) o s0 (typed m0) s1 (typed m1)))
+    | "sub" -> Some (sval (ibig_sub_asis (wz ()) o s0 (typed m0) s1 (typed m1)))
+    | _ ->
+        if small (nwords m0) (nwords m1) then begin
+          let r3 = sval (ibig_mul_asis_w (wz ()) d21 ts tk chunk sq s0 (typed m0) s1 (typed m1)) in
+          let r4 = (match uval (repr_mul_w4 (wz ()) d21 ts tk chunk sq (typed m0) (typed m1)) with
+                    | Ok v -> Ok (if s0 = s1 then v else Zar.neg v) | Panic p -> Panic p | Err e -> Err e | OutOfFuel -> OutOfFuel) in
+          if r3 = r4 then Some r4 else Some (Err Zar.zero)
+        end else None
   let sqr (x : Zar.t) : Zar.t result option =
-    if small (nwords x) (nwords x) then Some (uval (repr_sqr_w w64 d21 ts tk sq (typed x))) else None
+    if small (nwords x) (nwords x) then Some (uval (repr_sqr_w (wz ()) d21 ts tk sq (typed x))) else None
   let cubic s (m : Zar.t) : Zar.t result option =
-    if small (nwords m) (2 * nwords m) then Some (sval (ibig_cubic_asis_w w64 d21 ts tk chunk sq s (typed m))) else None
+    if small (nwords m) (2 * nwords m) then Some (sval (ibig_cubic_asis_w (wz ()) d21 ts tk chunk sq s (typed m))) else None
   let pow s (m : Zar.t) (e : Zar.t) : Zar.t result option =
     let rw = nwords m * Zar.to_int e in
-    if small rw (rw / 4) then Some (sval (ibig_pow_w w64 d21 ts tk chunk sq true s (typed m) e)) else None
+    if small rw (rw / 4) then Some (sval (ibig_pow_w (wz ()) d21 ts tk chunk sq true s (typed m) e)) else None
   (* primitive-operand forms (Int/RingPrim.v): side l r lr rr a, op add sub mul *)
   let pside = function "r" | "rr" -> PRight | _ -> PLeft
   let pref = function "lr" | "rr" -> true | _ -> false
   let pop_of = function "add" -> PAdd | "sub" -> PSub | _ -> PMul
   let bits_of ty = Zar.of_int (match ty with "i8" -> 8 | "i16" -> 16 | "i32" -> 32 | "i64" | "isize" -> 64 | _ -> 128)
   let uprim side o (x : Zar.t) (p : Zar.t) : Zar.t result option =
-    if small (nwords x) 2 then Some (uval (ubig_prim w64 d21 ts tk chunk sq (pop_of o) (pside side) (pref side) (typed x) p)) else None
+    if small (nwords x) 2 then Some (uval (ubig_prim (wz ()) d21 ts tk chunk sq (pop_of o) (pside side) (pref side) (typed x) p)) else None
   let iprim signed_ty side o (x : Zar.t) (p : Zar.t) : Zar.t result option =
     let s, m = sm x in
-    let q = (match signed_ty with Some ty -> ibig_from_signed w64 (bits_of ty) p | None -> ibig_from_unsigned w64 p) in
-    if small (nwords m) 2 then Some (sval (ibig_prim w64 d21 ts tk chunk sq (pop_of o) (pside side) (pref side) (s, typed m) q)) else None
+    let q = (match signed_ty with Some ty -> ibig_from_signed (wz ()) (bits_of ty) p | None -> ibig_from_unsigned (wz ()) p) in
+    if small (nwords m) 2 then Some (sval (ibig_prim (wz ()) d21 ts tk chunk sq (pop_of o) (pside side) (pref side) (s, typed m) q)) else None
   let kmul (which : int) s (la : int) (lb : int) (c : Zar.t) (a : Zar.t) (b : Zar.t) : string option =
     if not (small la lb) then None else
     let cw = words (la + lb) c and aw = words la a and bw = words lb b in
     let f = (match which with
-      | 0 -> add_signed_mul_w w64 d21 ts tk chunk
-      | 1 -> simple_add_signed_mul_w w64 d21 ts tk chunk
-      | 2 -> karatsuba_add_signed_mul_w w64 d21 ts tk chunk
-      | _ -> toom3_add_signed_mul_w w64 d21 ts tk chunk) in
+      | 0 -> add_signed_mul_w (wz ()) d21 ts tk chunk
+      | 1 -> simple_add_signed_mul_w (wz ()) d21 ts tk chunk
+      | 2 -> karatsuba_add_signed_mul_w (wz ()) d21 ts tk chunk
+      | _ -> toom3_add_signed_mul_w (wz ()) d21 ts tk chunk) in
     (match f cw s aw bw with
-     | Ok (r, carry) -> Some ("ok " ^ hx (value w64 r) ^ " " ^ hx carry)
+     | Ok (r, carry) ->
+         let t = "ok " ^ hx (value (wz ()) r) ^ " " ^ hx carry in
+         (* the schoolbook rows REGENERATED from mul/simple.rs (coq/gen/WordKernelsGen.v) must say the same *)
+         if which = 1 && la <= Zar.to_int mul_simple_chunk_len && la >= lb then begin
+           let (r2, c2) = signed_mul_chunk_gen (wz ()) cw s aw bw in
+           if "ok " ^ hx (value (wz ()) r2) ^ " " ^ hx c2 = t then Some t else Some "gen-rows-differ"
+         end else Some t
      | Panic _ -> Some "panic model"
      | Err _ -> Some "err model"
      | OutOfFuel -> Some "outoffuel")
   let ksqr (la : int) (a : Zar.t) : string option =
     if not (small la la) then None else
-    (match sqr_w w64 d21 ts tk sq (words la a) with
-     | Ok r -> Some ("ok " ^ hx (value w64 r))
+    (match sqr_w (wz ()) d21 ts tk sq (words la a) with
+     | Ok r -> Some ("ok " ^ hx (value (wz ()) r))
      | Panic _ -> Some "panic model"
      | _ -> Some "outoffuel")
 end
@@ -99,7 +127,10 @@ let fido asis got = match asis with Some r -> fid (res_str r) got | None -> "asi
 let expect_val ?(extra = "") v got = expect ~extra ("ok " ^ hx v ^ " 1") got
 
 
-let judge op args got =
+let judge op args got0 =
+  let got = split_answer got0 in
+  let sc = 64 / !wbits in
+  if got = ["ok"; "na"] then pass ~nt:false ~extra:"cls=other-build" () else
   let a i = z (List.nth args i) in
   let n i = usz (List.nth args i) in
   let cls2 x y = "cls=" ^ cls_of x ^ "-" ^ cls_of y in
@@ -142,29 +173,44 @@ let judge op args got =
       let s, m = sm x in
       let asis = Ringasis.pow s m e in
       expect_val ~extra:("cls=" ^ cls_of x ^ " " ^ fido asis got) (pow_spec x e) got
-  | "kmul" ->
+  | "kmul" | "kmul32" | "kmul64" ->
       let which = Zar.to_int (n 0) and s = (if List.nth args 1 = "1" then Positive else Negative) in
-      let la = n 2 and lb = n 3 in
+      let sc = if op = "kmul" then sc else 1 in
+      let la = Zar.mul (Zar.of_int sc) (n 2) and lb = Zar.mul (Zar.of_int sc) (n 3) in
       let c = a 4 and x = a 5 and y = a 6 in
-      let (r, carry) = mul_kernel_spec w64 (Zar.add la lb) s c x y in
+      let (r, carry) = mul_kernel_spec (Zar.of_int !wbits) (Zar.add la lb) s c x y in
       let want = "ok " ^ hx r ^ " " ^ hx carry in
       let asis = Ringasis.kmul which s (Zar.to_int la) (Zar.to_int lb) c x y in
-      expect ~extra:("cls=k" ^ string_of_int which ^ " " ^ (match asis with Some t -> fid t got | None -> "asis=na")) want got
-  | "ksqr" ->
-      let la = n 0 and x = a 1 in
+      expect ~extra:("cls=k" ^ string_of_int which ^ (if !wbits = 32 then "w32" else "") ^ " " ^ (match asis with Some t -> fid t got | None -> "asis=na")) want got
+  | "ksqr" | "ksqr32" ->
+      let la = Zar.mul (Zar.of_int (if op = "ksqr" then sc else 1)) (n 0) and x = a 1 in
       let want = "ok " ^ hx (sqr_spec x) in
       let asis = Ringasis.ksqr (Zar.to_int la) x in
       expect ~extra:(match asis with Some t -> fid t got | None -> "asis=na") want got
   | "kmem" ->
       (* scratch memory: verdict = the reserved amount suffices (least amount that runs <= reserved);
          fidelity = both numbers are the ones of the model (DashuGen.MulMemory formula, Int/RingScratch.v consumption) *)
-      let la = n 0 and lb = n 1 in
+      let la = Zar.mul (Zar.of_int sc) (n 0) and lb = Zar.mul (Zar.of_int sc) (n 1) in
       let want = "ok " ^ hx (kernel_alloc Zar.zero la lb) ^ " " ^ hx (kernel_need Zar.zero la lb) in
       (match got with
        | ["ok"; f; k] when Zar.leq (usz k) (usz f) -> pass ~extra:("cls=mem " ^ fid want got) ()
        | _ -> fail want)
+  | "wk" ->
+      (* one word kernel of add.rs / mul/mod.rs: wk wordbits which llen rlen lhs rhs x sx -> ok lhs' magnitude negative? *)
+      let wb = Zar.to_int (n 0) in
+      wbits := wb;
+      let w = Zar.of_int wb in
+      let which = n 1 and ll = Zar.to_int (n 2) and rl = Zar.to_int (n 3) in
+      let lhs = a 4 and rhs = a 5 and x = a 6 and sx = a 7 in
+      let str v m neg = "ok " ^ hx v ^ " " ^ hx m ^ " " ^ (if neg then "1" else "0") in
+      let ((v, m), neg) = word_kernel_spec w which (Zar.of_int ll) lhs rhs x sx in
+      let (l2, (m2, neg2)) = word_kernel_gen w which (Ringasis.words ll lhs) (Ringasis.words rl rhs) x sx in
+      let (l3, (m3, neg3)) = word_kernel_hand w which (Ringasis.words ll lhs) (Ringasis.words rl rhs) x sx in
+      let gen = str (value w l2) m2 neg2 and hand = str (value w l3) m3 neg3 in
+      let f = if gen <> hand then "asis=diff" else fid gen got in
+      expect ~extra:("cls=wk" ^ string_of_int wb ^ "-" ^ Zar.to_string which ^ " " ^ f) (str v m neg) got
   | "params" ->
-      expect (Printf.sprintf "ok %s %s %s %s 40" (hx mul_threshold_simple) (hx mul_threshold_karatsuba) (hx karatsuba_min_len) (hx toom3_min_len)) got
+      expect (Printf.sprintf "ok %s %s %s %s %x" (hx mul_threshold_simple) (hx mul_threshold_karatsuba) (hx karatsuba_min_len) (hx toom3_min_len) (match got with [_; _; _; _; _; "20"] -> 32 | _ -> 64)) got
   | _ -> fail ("unknown-op-" ^ op)
 
 let () = serve judge
